@@ -160,6 +160,7 @@ def oracle(case, obs):
     # "every other variable intact": every reference of every snapshot resolves to the entry of ITS object
     for ai, s in cc.snapshots_by_action(case, obs):
         v += [f'tp{ai}: ' + x for x in cc.judge_identity(case, obs, live, ai, s)]
+    v += cc.judge_wire(case, obs)
     return v
 
 
